@@ -396,6 +396,62 @@ async fn test_multipart_failed_complete() -> Result<()> {
 
 #[tokio::test]
 #[tracing::instrument]
+async fn test_multipart_unknown_upload() -> Result<()> {
+    use aws_sdk_s3::error::ProvideErrorMetadata;
+
+    let _guard = serial().await;
+
+    let c = Client::new(config());
+
+    let bucket = format!("test-multipart-unknown-{}", Uuid::new_v4());
+    let bucket = bucket.as_str();
+    create_bucket(&c, bucket).await?;
+
+    let key = "sample.txt";
+
+    for upload_id in [Uuid::new_v4().to_string(), "not-an-upload-id".to_owned()] {
+        let upload_id = upload_id.as_str();
+
+        let err = c
+            .upload_part()
+            .bucket(bucket)
+            .key(key)
+            .upload_id(upload_id)
+            .body(ByteStream::from_static(b"hello"))
+            .part_number(1)
+            .send()
+            .await
+            .unwrap_err();
+        assert_eq!(err.code(), Some("NoSuchUpload"));
+
+        let err = c
+            .list_parts()
+            .bucket(bucket)
+            .key(key)
+            .upload_id(upload_id)
+            .send()
+            .await
+            .unwrap_err();
+        assert_eq!(err.code(), Some("NoSuchUpload"));
+
+        let err = c
+            .abort_multipart_upload()
+            .bucket(bucket)
+            .key(key)
+            .upload_id(upload_id)
+            .send()
+            .await
+            .unwrap_err();
+        assert_eq!(err.code(), Some("NoSuchUpload"));
+    }
+
+    delete_bucket(&c, bucket).await?;
+
+    Ok(())
+}
+
+#[tokio::test]
+#[tracing::instrument]
 async fn test_upload_part_copy() -> Result<()> {
     let _guard = serial().await;
 
